@@ -16,22 +16,23 @@ EXTENDS Integers, Sequences, FiniteSets, TLC, Json, SequencesExt
 Trace == ndJsonDeserialize("cases.ndjson")
 VARIABLES l, bad, stats
 vars == <<l, bad, stats>>
-Reserved == {"timers", "http", "ws"}
+\* mcrew reserves the names of its services; the debugger host (cmd/mdb) has no services
+Reserved(host) == IF host = "mdb" THEN {} ELSE {"timers", "http", "ws"}
 
-Addressed(msg, ids) ==
+AddressedH(host, msg, ids) ==
   IF "to" \notin DOMAIN msg THEN ids
-  ELSE IF msg.to \in Reserved THEN {}
-  ELSE IF msg.to \in {"a", "b", "c", "nobody"} THEN {msg.to} \cap ids
+  ELSE IF msg.to \in Reserved(host) THEN {}
+  ELSE IF msg.to \in {"a", "b", "c", "nobody", "timers"} THEN {msg.to} \cap ids
   ELSE ids
 \* (a "to" that is not a string is recorded by the driver as "#nonstring": it is not a machine id, so: everyone)
-Addr(msg, ids) == Addressed(msg, ids)
+Host(c) == IF "host" \in DOMAIN c THEN c.host ELSE "mcrew"
 
 Flat(ss) == FoldLeft(LAMBDA acc, x : acc \o x, <<>>, ss)
 \* what is emitted when every message of `level` has been presented to its addressees
 NextLevel(c, level) ==
   LET ids == DOMAIN c.machines IN
   Flat([i \in DOMAIN level |->
-         Flat(SetToSeq({c.machines[k].emit : k \in Addr(level[i], ids)}))])
+         Flat(SetToSeq({c.machines[k].emit : k \in AddressedH(Host(c), level[i], ids)}))])
 \* (machines emit the same list for every message, so the set above loses nothing unless two addressed
 \*  machines have equal lists; the generator gives every emitted message a unique id)
 RECURSIVE Closure(_, _, _)
@@ -40,7 +41,7 @@ AllProcessed(c) == Closure(c, c.externals, 4)
 Emitted(c) == SubSeq(AllProcessed(c), Len(c.externals) + 1, Len(AllProcessed(c)))
 Ids(ms) == [i \in DOMAIN ms |-> ms[i].m]
 SameBagS(s, t) == Len(s) = Len(t) /\ \A i \in DOMAIN s : Cardinality({j \in DOMAIN s : s[j] = s[i]}) = Cardinality({j \in DOMAIN t : t[j] = s[i]})
-ExpectedLog(c, k) == SelectSeq(AllProcessed(c), LAMBDA m : k \in Addr(m, DOMAIN c.machines))
+ExpectedLog(c, k) == SelectSeq(AllProcessed(c), LAMBDA m : k \in AddressedH(Host(c), m, DOMAIN c.machines))
 
 Labels(c) ==
   (IF ~SameBagS(c.processed, Ids(AllProcessed(c))) THEN {"message-not-processed-exactly-once"} ELSE {})
